@@ -204,8 +204,10 @@ EXPORT int _vsnwprintf_s_chk(wchar_t *restrict dest, rsize_t dmax,
             ret = vswprintf(tmp, 512, fmt, ap2);
         } else {
             wchar_t *tmp = (wchar_t *)malloc(dmax * sizeof(wchar_t));
-            ret = vswprintf(tmp, dmax, fmt, ap2);
-            free(tmp);
+            if (tmp) { /* without scratch space the error stays an error */
+                ret = vswprintf(tmp, dmax, fmt, ap2);
+                free(tmp);
+            }
         }
         /* this will bump ret to > 0 */
     }
